@@ -121,25 +121,75 @@ async fn wait_idle(storage: &StorageSystem, max: Duration) -> bool {
     false
 }
 
-/// Thread states of this process (for the deadlock witness).
-fn thread_states() -> (Vec<String>, u64) {
+/// Thread states of this process, the calling thread left out: (state, name)
+/// per thread and the CPU ticks (user + system) used by all of them so far.
+fn thread_states() -> (Vec<(String, String)>, u64) {
     let mut states = vec![];
     let mut cpu = 0u64;
+    let me = unsafe { libc::syscall(libc::SYS_gettid) } as u64;
     if let Ok(rd) = std::fs::read_dir("/proc/self/task") {
         for e in rd.flatten() {
+            let tid: u64 = e.file_name().to_string_lossy().parse().unwrap_or(0);
             if let Ok(s) = std::fs::read_to_string(e.path().join("stat")) {
+                let name = s.split('(').nth(1).and_then(|x| x.split(')').next())
+                    .unwrap_or("").to_string();
                 if let Some(rest) = s.rsplit(')').next() {
                     let f: Vec<&str> = rest.split_whitespace().collect();
                     if f.len() > 13 {
-                        states.push(f[0].to_string());
                         cpu += f[11].parse::<u64>().unwrap_or(0)
                             + f[12].parse::<u64>().unwrap_or(0);
+                        if tid != me {
+                            states.push((f[0].to_string(), name));
+                        }
                     }
                 }
             }
         }
     }
     (states, cpu)
+}
+
+/// Decides "waits for ever" as bounded progress: over a window of
+/// `STALL_WINDOW_S` seconds no outstanding call returned, (nearly) every
+/// sample found every other thread of the process asleep (a thread that is
+/// merely starved on a loaded machine shows as runnable), and the whole
+/// process used next to no CPU time. Anything else is "still working".
+const STALL_WINDOW_S: u64 = 20;
+const STALL_MAX_TICKS: u64 = 100;
+
+struct StallWindow {
+    start: Instant, cpu0: u64, samples: u32, asleep: u32, progress_mark: usize,
+}
+
+impl StallWindow {
+    fn new(progress_mark: usize) -> Self {
+        StallWindow { start: Instant::now(), cpu0: thread_states().1,
+                      samples: 0, asleep: 0, progress_mark }
+    }
+    /// Feeds one sample; Some(witness) when the window closed as a stall.
+    fn sample(&mut self, progress: usize) -> Option<Value> {
+        if progress != self.progress_mark {
+            *self = StallWindow::new(progress);
+            return None
+        }
+        let (st, cpu) = thread_states();
+        self.samples += 1;
+        if st.iter().all(|s| s.0 == "S") { self.asleep += 1 }
+        if self.start.elapsed() < Duration::from_secs(STALL_WINDOW_S) {
+            return None
+        }
+        let used = cpu.saturating_sub(self.cpu0);
+        let verdict = self.samples >= 20
+            && self.asleep * 10 >= self.samples * 9
+            && used <= STALL_MAX_TICKS;
+        let wit = json!({"window_s": STALL_WINDOW_S, "samples": self.samples,
+            "samples_all_asleep": self.asleep, "cpu_ticks_used": used,
+            "threads": st.iter().map(|s| format!("{}:{}", s.1, s.0))
+                .collect::<Vec<_>>()});
+        if verdict { return Some(wit) }
+        *self = StallWindow::new(progress);
+        None
+    }
 }
 
 async fn round(
@@ -232,12 +282,18 @@ async fn round(
     let clients = rng.range(4, 12) as usize;
     let per_client = rng.range(3, 7) as usize;
     let recs: Arc<Mutex<Vec<Rec>>> = Arc::new(Mutex::new(vec![]));
+    // calls issued and not yet answered: (client, seq) -> what
+    let inflight: Arc<Mutex<BTreeMap<(usize, usize), String>>> =
+        Arc::new(Mutex::new(BTreeMap::new()));
+    let clients_done = Arc::new(std::sync::atomic::AtomicUsize::new(0));
     let actor = Actor::user("verif-client");
     let mut joins = vec![];
     for c in 0..clients {
         let manager: Arc<KrillManager> = manager.clone();
         let remote_list = remote_list.clone();
         let recs = recs.clone();
+        let inflight = inflight.clone();
+        let clients_done = clients_done.clone();
         let actor = actor.clone();
         let mut crng = Rng::new(rng.next());
         joins.push(tokio::spawn(async move {
@@ -271,6 +327,8 @@ async fn round(
                     _ => ("remote_list", "q", format!("agent-{c}-{seq}")),
                 };
                 let t0 = Instant::now();
+                inflight.lock().unwrap().insert(
+                    (c, seq), format!("{kind} {target} {arg}"));
                 let res: Result<(), String> = match kind {
                     "roa_add" | "roa_reject" => manager.ca_routes_update(
                         h(target),
@@ -317,46 +375,52 @@ async fn round(
                     _ => manager.ca_keyroll_activate(h("c2"), actor.clone())
                         .await.map_err(|e| e.to_string()),
                 };
+                inflight.lock().unwrap().remove(&(c, seq));
                 recs.lock().unwrap().push(Rec {
                     client: c, seq, kind: kind.into(), target: target.into(),
                     arg, ok: res.is_ok(), err: res.err().unwrap_or_default(),
                     ms: t0.elapsed().as_millis(),
                 });
             }
+            clients_done.fetch_add(1, Ordering::SeqCst);
         }));
     }
     // progress monitor
-    let all = async { for j in joins { let _ = j.await; } };
     let desc = json!({"memory": memory, "clients": clients,
                       "per_client": per_client, "case": case});
-    let finished = tokio::time::timeout(Duration::from_secs(150), all).await;
-    if finished.is_err() {
-        // calls outstanding: deadlock or just slow?
-        let mut idle = 0;
-        let mut last_cpu = 0u64;
-        let mut states = vec![];
-        for _ in 0..8 {
-            let (st, cpu) = thread_states();
-            let blocked = st.iter().all(|s| s == "S" || s == "D");
-            if blocked && cpu == last_cpu { idle += 1 } else { idle = 0 }
-            last_cpu = cpu;
-            states = st;
-            tokio::time::sleep(Duration::from_millis(500)).await;
-        }
+    let started = Instant::now();
+    let mut window = StallWindow::new(0);
+    loop {
+        if clients_done.load(Ordering::SeqCst) == clients { break }
+        tokio::time::sleep(Duration::from_millis(250)).await;
         let done = recs.lock().unwrap().len();
-        let wit = json!({"desc": desc, "completed_calls": done,
-            "expected_calls": clients * per_client, "thread_states": states,
-            "sites": SITES.lock().map(|s| s.clone()).unwrap_or_default()});
-        if idle >= 6 {
+        if let Some(stall) = window.sample(done) {
+            let waiting: Vec<String> = inflight.lock().unwrap().values()
+                .cloned().collect();
+            let (p, rr) = queue_state(view);
+            let wit = json!({"desc": desc, "completed_calls": done,
+                "expected_calls": clients * per_client,
+                "calls_waiting": waiting, "stall": stall,
+                "queue_running": rr,
+                "queue_pending": p.iter().map(|x| &x.1).take(8)
+                    .collect::<Vec<_>>(),
+                "sites": SITES.lock().map(|s| s.clone()).unwrap_or_default()});
             return Some(("calls-wait-for-ever".into(), format!(
-                "{} of {} calls had not returned after 150 s while every \
-                 thread was blocked and no CPU time was used",
-                clients * per_client - done, clients * per_client), wit))
+                "{} of {} calls had not returned and none returned for {} s \
+                 while every other thread of the process was asleep and the \
+                 process used almost no CPU time; waiting: {:?}",
+                clients * per_client - done, clients * per_client,
+                STALL_WINDOW_S, waiting.iter().take(6).collect::<Vec<_>>()),
+                wit))
         }
-        r.inconclusive(format!("round {case}: watchdog fired but threads \
-            were still making progress ({done} calls done)"));
-        std::process::exit(0);
+        if started.elapsed() > Duration::from_secs(150) {
+            r.inconclusive(format!("round {case}: calls outstanding after \
+                150 s but the process was still working ({done} calls done)"));
+            r.write();
+            std::process::exit(0);
+        }
     }
+    for j in joins { let _ = j.await; }
     r.count("calls_completed", (clients * per_client) as u64);
     let recs = recs.lock().unwrap().clone();
     let wit = |extra: Value| json!({"desc": desc, "records": recs, "extra": extra});
@@ -610,7 +674,11 @@ fn main() {
     while r.within_budget() {
         case += 1;
         let res = rt.block_on(round(&mut r, &args, case, &mut rng));
-        if let Some((s, d, w)) = res { r.violation(&s, &d, w); }
+        if let Some((s, d, w)) = res {
+            r.violation(&s, &d, w);
+            // stuck threads stay behind: no further rounds in this process
+            if s == "calls-wait-for-ever" { break }
+        }
         let _ = std::fs::write(args.work.join("partial.json"),
             serde_json::to_vec(&r.to_json()).unwrap());
     }
